@@ -49,8 +49,12 @@ type scriptedChild struct {
 	r        *rand.Rand
 	rmu      sync.Mutex
 	observe  int // 0 never looks at the context, 1 always, 2 at random
+	failAt   int // the call (1-based) at which the child fails on its own; 0: never
+	calls    int
 	pool     *model.VectorPool
 }
+
+var errChildFailed = fmt.Errorf("verif: the scripted child failed")
 
 func (c *scriptedChild) jitter() {
 	c.rmu.Lock()
@@ -77,6 +81,11 @@ func (c *scriptedChild) Next(ctx context.Context) ([]model.StepVector, error) {
 		c.log.add("LChildErr")
 		return nil, ctx.Err()
 	}
+	c.calls++
+	if c.failAt > 0 && c.calls == c.failAt {
+		c.log.add("LChildErr")
+		return nil, errChildFailed
+	}
 	if c.produced < c.total {
 		c.produced++
 		c.log.add("LChildData")
@@ -96,6 +105,22 @@ func runConcCase(seed int64, id int) (total int, events []string, goroutinesLeft
 	total = r.Intn(5)
 	lg := &concLog{onLen: map[int]func(){}}
 	child := &scriptedChild{log: lg, total: total, r: rand.New(rand.NewSource(r.Int63())), observe: r.Intn(3), pool: model.NewVectorPool(10)}
+	slowConsumer := false
+	if id%3 == 1 {
+		// the child fails on its own at some call, possibly while its buffer is full and the
+		// consumer is busy elsewhere
+		child.failAt = 1 + r.Intn(total+1)
+		slowConsumer = r.Intn(2) == 0
+	}
+	fullBuffer := id%6 == 4
+	if fullBuffer {
+		// the child fails at its fourth call: the first batch has been taken, two are buffered, the
+		// consumer is busy elsewhere; then the query is cancelled
+		total = 3 + r.Intn(2)
+		child.total = total
+		child.failAt = 4
+		slowConsumer = true
+	}
 	op := exchange.NewConcurrent(child, 2)
 	ctx, cancel := context.WithCancel(context.Background())
 	var cancelOnce sync.Once
@@ -110,11 +135,20 @@ func runConcCase(seed int64, id int) (total int, events []string, goroutinesLeft
 	cancelAt := -1
 	if r.Intn(4) != 0 {
 		cancelAt = 1 + r.Intn(3*total+6)
+		if fullBuffer {
+			cancelAt = 9 + r.Intn(2)
+		}
 		lg.onLen[cancelAt] = func() { go doCancel() }
 	}
 	before := runtime.NumGoroutine()
 	cr := rand.New(rand.NewSource(r.Int63()))
 	jit := func() {
+		if slowConsumer {
+			time.Sleep(time.Duration(200+cr.Intn(400)) * time.Microsecond)
+			if fullBuffer {
+				time.Sleep(2 * time.Millisecond)
+			}
+		}
 		switch cr.Intn(6) {
 		case 0:
 			runtime.Gosched()
